@@ -339,14 +339,23 @@ class Path:
         self.assume(c if d else z3.Not(c))
         return d
 
-    def prove(self, phi, name, kind="assert", where=""):
-        """obligation: pc => phi.  Conjunctions are split into one query per conjunct."""
+    def prove(self, phi, name, kind="assert", where="", assume_form=None):
+        """obligation: pc => phi.  Conjunctions are split into one query per conjunct.
+        assume_form: an equivalent formula better suited as a hypothesis (skolemised, with triggers); it
+        replaces phi as the fact recorded on the path once phi has been proved."""
         parts = _split_conj(phi)
-        if len(parts) == 1:
-            return self.prove1(parts[0], name, kind, where)
-        ok = True
-        for part in parts:
-            ok = self.prove1(part, name, kind, where) and ok
+        self._no_assume = assume_form is not None
+        try:
+            if len(parts) == 1:
+                ok = self.prove1(parts[0], name, kind, where)
+            else:
+                ok = True
+                for part in parts:
+                    ok = self.prove1(part, name, kind, where) and ok
+        finally:
+            self._no_assume = False
+        if assume_form is not None:
+            self.assume(assume_form)
         return ok
 
     def prove1(self, phi, name, kind="assert", where=""):
@@ -371,7 +380,7 @@ class Path:
             print("   dumped", name, "->", fn)
         if r == z3.unsat:
             self.ver.record(Obligation(name, kind, "proved", path=list(self.taken), seconds=dt, where=where))
-            if kind != "post":
+            if kind != "post" and not getattr(self, "_no_assume", False):
                 self.assume(p)
             return True
         if r == z3.sat:
